@@ -93,16 +93,6 @@ theorem dispatchDyn_ok {s : State} {r : Nat} {q : Req} (h : HostId) (hq : s.reqs
   · simp [hok]
   · simp_all
 
-theorem firstAvailableFrom_mem {p : Params} {s : State} {i : Nat} {ups : List (Key × HostId)} {u : Key × HostId}
-    (h : firstAvailableFrom p s i ups = some u) : u ∈ ups := by
-  induction ups generalizing i with
-  | nil => simp [firstAvailableFrom] at h
-  | cons a as ih =>
-    simp only [firstAvailableFrom] at h
-    split at h
-    · simp at h; subst h; simp
-    · exact List.mem_cons_of_mem _ (ih h)
-
 theorem decidedFrom_idle {s : State} {r : Nat} {q : Req} (hd : DecidedFrom s r q) :
     ∀ q', s.reqs[r]? = some q' → q'.pc.hostOf = none := by
   obtain ⟨q0, e, c, hq, _⟩ := hd
@@ -111,8 +101,8 @@ theorem decidedFrom_idle {s : State} {r : Nat} {q : Req} (hd : DecidedFrom s r q
 
 theorem decidedFrom_reqs {s s' : State} {r : Nat} {q : Req} (hd : DecidedFrom s r q) (h : s'.reqs = s.reqs) :
     DecidedFrom s' r q := by
-  obtain ⟨q0, e, c, hq, h1, h2, h3⟩ := hd
-  exact ⟨q0, e, c, by rw [h]; exact hq, h1, h2, h3⟩
+  obtain ⟨q0, e, c, hq, h1, h2, h3, h4⟩ := hd
+  exact ⟨q0, e, c, by rw [h]; exact hq, h1, h2, h3, h4⟩
 
 /-- **advanceDyn_never_runs_out_of_fuel** -/
 theorem advanceDyn_never_runs_out_of_fuel (fuel : Nat) (d : DState) (r : Nat) (q : Req)
@@ -138,7 +128,7 @@ theorem advanceDyn_never_runs_out_of_fuel (fuel : Nat) (d : DState) (r : Nat) (q
       · rfl
       next hnd =>
         have hnd' : isDone s3 r = false := by simpa using hnd
-        obtain ⟨q1, hq1', hp1, hpar, _, hrt, hlt⟩ := isDone_false_start (decidedFrom_reqs hd2 hr3) hnd'
+        obtain ⟨q1, hq1', hp1, hpar, _, hrt, hlt, _⟩ := isDone_false_start (decidedFrom_reqs hd2 hr3) hnd'
         exact ih (withIter d s3 r d.s.cfgs.length (keysOf d q.cfg)) q1 hq1' hp1 (by rw [hpar]; exact hdyn')
           (by rw [hpar, hrt, hpar', hrt']; rw [hpar', hrt'] at hlt; omega)
     next u hsel =>
@@ -160,7 +150,7 @@ theorem advanceDyn_never_runs_out_of_fuel (fuel : Nat) (d : DState) (r : Nat) (q
         · rfl
         next hnd =>
           have hnd' : isDone s4 r = false := by simpa using hnd
-          obtain ⟨q1, hq1', hp1, hpar, _, hrt, hlt⟩ := isDone_false_start (decidedFrom_reqs hd3 hr4) hnd'
+          obtain ⟨q1, hq1', hp1, hpar, _, hrt, hlt, _⟩ := isDone_false_start (decidedFrom_reqs hd3 hr4) hnd'
           exact ih (withIter d s4 r d.s.cfgs.length (keysOf d q.cfg)) q1 hq1' hp1
             (by rw [hpar, hpar2]; exact hdyn')
             (by rw [hpar, hrt, hpar2, hrt2, hpar', hrt']; rw [hpar2, hrt2, hpar', hrt'] at hlt; omega)
